@@ -227,6 +227,64 @@ TRUSTED = [
 ]
 
 
+# which translated pieces (tools/translate.py `piece`) a property rests on.  A piece whose source the
+# translator cannot read is translated from the snapshot under /verif/fallback instead; the property
+# then needs the piece to be tied to the code by the exhaustive registry dump (`dump_tie`).
+CAT = ("catalogue.", "astro", "amnt", "modules")
+PIECE_DEPS = {
+    "C01": CAT, "C02": CAT, "C03": CAT, "C04": CAT, "C05": CAT, "C06": ("catalogue.", "astro", "modules"),
+    "C07": CAT + ("si",), "C08": CAT, "C09": CAT, "C10": CAT, "C11": ("amnt",), "C12": (),
+    "C13": CAT, "C14": ("temp", "catalogue.temperature", "amnt"), "C15": CAT, "C16": ("si",),
+    "C17": CAT, "C18": CAT + ("temp",), "C19": ("features", "modules", "catalogue."),
+}
+
+
+def fallback_pieces(pid):
+    """pieces translated from the snapshot (their source could not be read) that `pid` rests on"""
+    try:
+        fb = json.load(open(os.path.join(VERIF, "work", "tables.json"), encoding="utf-8")).get("fallback", {})
+    except (OSError, ValueError):
+        return {}
+    deps = PIECE_DEPS.get(pid, CAT)
+    return {p: r for p, r in fb.items() if any(p == d or (d.endswith(".") and p.startswith(d)) for d in deps)}
+
+
+def dump_tie(pieces, backends, seed, pid=""):
+    """For every piece translated from the snapshot: the exhaustive dump that ties the snapshot's table to
+    the compiled crate (every unit of every type of the piece: identifier, name, symbol, prefix, scale
+    bits, constant; all prefixes / exponents / abbreviations; the rows of the temperature table).
+    Returns {piece: [Case]}; a piece without such a dump maps to None."""
+    tables = json.load(open(os.path.join(VERIF, "work", "tables.json"), encoding="utf-8"))
+    module_of = {it["name"]: it["module"] for it in tables.get("catalogue", [])}
+    out = {}
+    for piece in pieces:
+        out[piece] = None if piece in ("modules", "features") else []
+    for be in backends:
+        w = World(be, open(os.path.join(pl.WORK, f"dump_{be}.txt"), encoding="utf-8").read())
+        for piece in pieces:
+            if out[piece] is None:
+                continue
+            if piece.startswith("catalogue."):
+                ls = [f"reg {t['name']}" for t in w.types if module_of.get(t["name"]) == piece.split(".", 1)[1]]
+            elif piece == "astro":
+                ls = [f"reg {t['name']}" for t in w.types if t["name"].startswith("A:")]
+            elif piece == "amnt":
+                ls = [f"reg {t['name']}" for t in w.types]
+            elif piece == "si":
+                # the variants with name, abbreviation and exponent; the two lookup functions only matter to C16
+                c16 = importlib.import_module("props.c16")
+                ls = ([l for _, l in c16.gen(w, Rng(seed), "quick")] if pid == "C16" else ["si iter"]) if be == "f64" else []
+            elif piece == "temp":
+                ls = ["temp rows"]
+            else:
+                ls = []
+            if ls:
+                for (line, io, mo, v) in pl.run_ops(be, ls, f"tie_{piece.replace('.', '_')}"):
+                    # the verdict of a dump line is not the property's oracle: only (dis)agreement counts here
+                    out[piece].append(Case(be, "tie:" + piece, line, io, mo, "tie"))
+    return out
+
+
 def run(pid, tier, seed, replay=None):
     t_start = time.time()
     prop = importlib.import_module(f"props.{pid.lower()}")
@@ -285,6 +343,23 @@ def run(pid, tier, seed, replay=None):
         except Broken as b:
             broken.append(b)
         timings["correspond"] = time.time() - t0
+    # pieces of the source the translator could not read: tied by the exhaustive dump, or broken
+    fb = fallback_pieces(pid)
+    if fb and fatal is None:
+        try:
+            ties = dump_tie(fb, backends, seed, pid)
+            for piece, reason in sorted(fb.items()):
+                tc = ties.get(piece)
+                bad = [c for c in (tc or []) if c.impl != c.model]
+                if tc is None or not tc or bad:
+                    why = f"{reason}; the snapshot of this table is " + (
+                        f"not what the compiled crate reports: {bad[0].as_dict()}" if bad else "not covered by a dump")
+                    broken.append(Broken("translate." + piece, why))
+                else:
+                    timings.setdefault("tied_by_dump", []).append(f"{piece} ({len(tc)} dump lines agree; translator: {reason[:200]})")
+                cases += (tc or [])
+        except Broken as b:
+            broken.append(b)
     # classify
     relevant = getattr(prop, "relevant", lambda c: True)
     oracle_fail = [c for c in cases if c.verdict.startswith("FAIL") and relevant(c)]
